@@ -330,6 +330,55 @@ fn segs_touch(a: (f64, f64), b: (f64, f64), c: (f64, f64), d: (f64, f64)) -> boo
     (o1 <= 0.0 && o2 >= 0.0 || o1 >= 0.0 && o2 <= 0.0) && (o3 <= 0.0 && o4 >= 0.0 || o3 >= 0.0 && o4 <= 0.0)
 }
 
+/// a request a -> b that passes exactly through a vertex m and then properly crosses an existing
+/// constraint edge (so that it must be rejected after part of it would already be resolvable)
+fn blocked_collinear(rng: &mut Rng, ctx: &Ctx) -> Option<(u64, u64)> {
+    let tag = ctx.tri.tag();
+    let nv = ctx.tri.nv();
+    if nv < 4 || nv > 40 {
+        return None;
+    }
+    let pos: Vec<(f64, f64)> = (0..nv).map(|i| {
+        let p = ctx.tri.pos_bits(i);
+        (val(tag, p.0), val(tag, p.1))
+    }).collect();
+    let ce = constraint_edges(ctx);
+    if ce.is_empty() {
+        return None;
+    }
+    let start = rng.below(nv as u64) as usize;
+    for da in 0..nv {
+        let a = (start + da) % nv;
+        for m in 0..nv {
+            if m == a {
+                continue;
+            }
+            for b in 0..nv {
+                if b == a || b == m {
+                    continue;
+                }
+                let d1 = (pos[m].0 - pos[a].0, pos[m].1 - pos[a].1);
+                let d2 = (pos[b].0 - pos[a].0, pos[b].1 - pos[a].1);
+                if d1.0 * d2.1 - d1.1 * d2.0 != 0.0 || d1.0 * d2.0 + d1.1 * d2.1 <= d1.0 * d1.0 + d1.1 * d1.1 {
+                    continue;
+                }
+                // a constraint properly crossed by m -> b
+                let crossed = ce.iter().any(|&(c, d)| {
+                    let o1 = orient(pos[m], pos[b], pos[c]);
+                    let o2 = orient(pos[m], pos[b], pos[d]);
+                    let o3 = orient(pos[c], pos[d], pos[m]);
+                    let o4 = orient(pos[c], pos[d], pos[b]);
+                    o1 * o2 < 0.0 && o3 * o4 < 0.0
+                });
+                if crossed {
+                    return Some((a as u64, b as u64));
+                }
+            }
+        }
+    }
+    None
+}
+
 fn constraint_edges(ctx: &Ctx) -> Vec<(usize, usize)> {
     let mut v = Vec::new();
     for ue in 0..ctx.tri.nde() / 2 {
@@ -374,6 +423,22 @@ fn query(rng: &mut Rng, ctx: &mut Ctx, fam: &Fam, class: &str) {
                 let b = rng.below(nv as u64);
                 ctx.op(vec![s("lineh"), a.to_string(), b.to_string()]);
             }
+        }
+        "rect" if rng.chance(200) && ctx.tri.nde() > 0 => {
+            // a rectangle spanned by two points of one edge: for axis-parallel edges this is a
+            // rectangle degenerate to a segment lying on (inside / overlapping / beyond) the edge
+            let e = rng.below(ctx.tri.nde() as u64) as usize;
+            let (a, b) = ctx.tri.edge_ends(e);
+            let (pa, pb) = (ctx.tri.pos_bits(a), ctx.tri.pos_bits(b));
+            let (pa, pb) = ((val(tag, pa.0), val(tag, pa.1)), (val(tag, pb.0), val(tag, pb.1)));
+            let ts = [0.25, 0.75, 0.5, 0.0, 1.0, -0.5, 1.5];
+            let t1 = *rng.pick(&ts);
+            let t2 = *rng.pick(&ts);
+            let p = (pa.0 + (pb.0 - pa.0) * t1, pa.1 + (pb.1 - pa.1) * t1);
+            let q = (pa.0 + (pb.0 - pa.0) * t2, pa.1 + (pb.1 - pa.1) * t2);
+            let (lo, hi) = ((p.0.min(q.0), p.1.min(q.1)), (p.0.max(q.0), p.1.max(q.1)));
+            let op = if rng.chance(300) { "rectv" } else { "recte" };
+            ctx.op(vec![s(op), ctok(tag, lo.0), ctok(tag, lo.1), ctok(tag, hi.0), ctok(tag, hi.1)]);
         }
         "rect" => {
             let p = fam.qpoint(rng, ctx);
@@ -492,6 +557,36 @@ fn mutate_plain(rng: &mut Rng, ctx: &mut Ctx, fam: &Fam, counter: &mut u64, allo
     }
 }
 
+/// scenario: a vertex b (almost) on a hull edge f -> t, a constraint from b into the
+/// triangulation, then add_constraint_and_split(f, t): the crossing is within rounding distance of
+/// the hull boundary
+fn near_hull_split(rng: &mut Rng, ctx: &mut Ctx, counter: &mut u64) {
+    let tag = ctx.tri.tag();
+    let nde = ctx.tri.nde();
+    let nv = ctx.tri.nv();
+    if nde == 0 || nv < 3 {
+        return;
+    }
+    // hull edges are not directly visible here: take any edge; many are hull edges in small sets
+    let e = rng.below(nde as u64) as usize;
+    let (f, t) = ctx.tri.edge_ends(e);
+    let (pf, pt) = (ctx.tri.pos_bits(f), ctx.tri.pos_bits(t));
+    let (pf, pt) = ((val(tag, pf.0), val(tag, pf.1)), (val(tag, pt.0), val(tag, pt.1)));
+    let tt = *rng.pick(&[0.6, 0.3, 0.5, 0.7]);
+    let mut b = (pf.0 + (pt.0 - pf.0) * tt, pf.1 + (pt.1 - pf.1) * tt);
+    if rng.chance(500) {
+        b.1 = ulp_shift(tag, b.1, rng.range(-1, 1));
+    }
+    let r = ctx.op(ins_op(ctx, b, *counter));
+    let bi: u64 = match r.strip_prefix("ok ") {
+        Some(x) => x.parse().unwrap_or(0),
+        None => return,
+    };
+    let c = rng.below(ctx.tri.nv() as u64);
+    ctx.op(vec![s("trycon"), bi.to_string(), c.to_string()]);
+    ctx.op(vec![s("consplit"), f.to_string(), t.to_string()]);
+}
+
 fn mutate_cdt(rng: &mut Rng, ctx: &mut Ctx, fam: &Fam, counter: &mut u64, split: bool) {
     let nv = ctx.tri.nv() as u64;
     let tag = ctx.tri.tag();
@@ -546,6 +641,12 @@ fn mutate_cdt(rng: &mut Rng, ctx: &mut Ctx, fam: &Fam, counter: &mut u64, split:
                 }
             }
         }
+        if rng.chance(120) {
+            if let Some((x, y)) = blocked_collinear(rng, ctx) {
+                a = x;
+                b = y;
+            }
+        }
         if split && rng.chance(600) {
             ctx.op(vec![s("consplit"), a.to_string(), b.to_string()]);
         } else if rng.chance(500) {
@@ -585,7 +686,16 @@ fn mutate_cdt(rng: &mut Rng, ctx: &mut Ctx, fam: &Fam, counter: &mut u64, split:
             ctx.op(vec![s("rmcon"), a.to_string(), b.to_string()]);
         }
     } else if r < 86 {
-        let i = rng.below(nv);
+        let mut i = rng.below(nv);
+        if rng.chance(500) {
+            // removing an end point of a constraint edge: the constraint goes with it and the
+            // edges it shielded have to be legalized again
+            let ce = constraint_edges(ctx);
+            if !ce.is_empty() {
+                let &(a, b) = rng.pick(&ce);
+                i = if rng.chance(500) { a as u64 } else { b as u64 };
+            }
+        }
         let op = if rng.chance(250) { "trm" } else { "rm" };
         ctx.op(vec![s(op), i.to_string()]);
     } else if r < 89 {
@@ -664,13 +774,15 @@ pub fn history(mode: &str, idx: u64, rng: &mut Rng, thorough: bool, timeout_ms: 
             ctx.finish();
         }
         // CDT histories with constraint operations
-        "cdt" | "cdtlast" | "split" => {
+        "cdt" | "cdtlast" | "split" | "splithull" => {
             let hints: &[&str] = if mode == "cdtlast" { &["last"] } else { &ALL_HINTS };
             let (scalar, kind, hint) = instance(rng, &["cdt"], true, hints);
             // constraint splitting computes intersection points in floating point: only
             // well-conditioned families are used for it (DESIGN C13)
-            let fam = if mode == "split" {
-                Fam::choose(rng, &["grid", "grid", "grid", "line", "circle", "unif"])
+            let fam = if mode == "splithull" {
+                Fam::choose(rng, &["unif", "unif", "grid"])
+            } else if mode == "split" {
+                Fam::choose(rng, &["grid", "grid", "grid", "circle", "unif"])
             } else {
                 Fam::choose(rng, &["grid", "grid", "grid", "grid", "line", "circle", "unif", "neardeg", "scaled", "wide"])
             };
@@ -687,7 +799,13 @@ pub fn history(mode: &str, idx: u64, rng: &mut Rng, thorough: bool, timeout_ms: 
                 if ctx.dead {
                     break;
                 }
-                mutate_cdt(rng, &mut ctx, &fam, &mut counter, mode == "split");
+                if mode == "splithull" && ctx.tri.nv() >= 3 && rng.chance(250) {
+                    // structural validity (C02) under constraint splitting right at the hull boundary;
+                    // the C13 clauses are not claimed on these deliberately ill-conditioned crossings
+                    near_hull_split(rng, &mut ctx, &mut counter);
+                } else {
+                    mutate_cdt(rng, &mut ctx, &fam, &mut counter, mode == "split" || mode == "splithull");
+                }
             }
             ctx.finish();
         }
